@@ -28,6 +28,13 @@ def mk_items(sess, suite, k, nkeys):
         msg = rand_msg(rng)
         s = sess.call("single_sign %s sk=%s tape=%s msg=%s" % (suite, sk, sess.tape(256), msg), EXACT if suite != "secp256k1-tr" else NONE, "single_sign")
         R, z = s["sig"].split(":")
+        if suite == "secp256k1-tr" and rng.random() < 0.5:
+            # a Signature object whose R has odd Y (what aggregate() returns for about half of the sessions);
+            # BIP-340 verification looks at the x-coordinate only, so it stays valid
+            m = sess.call("msm %s scalars=%s elems=%s" % (suite, fld.enc(-1), R), EXACT, "msm")
+            if m.ok and m["v"] != "id":
+                R = m["v"]
+                sess.count("odd-R item")
         items.append({"vk": vk, "R": R, "z": z, "msg": msg})
     return items
 
